@@ -253,3 +253,34 @@ def instrLen(manifest, with_contract=True):
                          "  __CPROVER_decreases(8 - length)\n  {", 1, 1)], "instrLen", manifest)
     leftover_check(b, "instrLen")
     return "static int instrLen(int labelOffset, int byteOffset, int minLength)" + (INSTRLEN_CONTRACT if with_contract else "\n") + b + "\n"
+
+
+def emit_debug_parts(manifest):
+    """CodeGen::emitDebugInfo: structure text-matched; the two loop bodies extracted.
+    Returns C text defining dbg_emit_strings_body(pair) and dbg_emit_symbols_body(pair) over a `DebugPair {int first; unsigned second;}`."""
+    src = Source("hexasm.hpp", manifest)
+    fn, _, _ = src.block_after(r"void emitDebugInfo\(std::ostream &outputFile\) \{", "CodeGen::emitDebugInfo")
+    loops = list(re.finditer(r"for \(const auto &pair : debugInfo\) \{", fn))
+    if len(loops) != 2:
+        raise ExtractionError("emitDebugInfo: expected two loops over debugInfo, found %d" % len(loops))
+    bodies = []
+    skeleton = fn
+    for m in reversed(loops):
+        lb = m.end() - 1
+        rb = match_close(fn, lb)
+        bodies.insert(0, fn[lb:rb + 1])
+        skeleton = skeleton[:m.start()] + "LOOP;" + skeleton[rb + 1:]
+    sk = " ".join(strip_comments(skeleton).split())
+    want = ("{ uint32_t tableSize = debugInfo.size(); outputFile.write(reinterpret_cast<const char*>(&tableSize), sizeof(uint32_t)); LOOP; "
+            "outputFile.write(reinterpret_cast<const char*>(&tableSize), sizeof(uint32_t)); uint32_t tableIndex = 0; LOOP; }")
+    if sk != want:
+        raise ExtractionError("emitDebugInfo: structure differs from the one the round-trip lemma was written for:\n found %s\n expected %s" % (sk, want))
+    b1 = rewrite(bodies[0], [(r"auto name = pair\.first;", "int name = pair->first;", 1, 1),
+                             (r"outputFile\.write\(name\.c_str\(\), name\.length\(\)\+1\);", "OUT_STRING(name);", 1, 1)], "emitDebugInfo string loop body", manifest)
+    b2 = rewrite(bodies[1], [(r"pair\.second", "pair->second", 1, 1),
+                             (r"outputFile\.write\(reinterpret_cast<const char\*>\(&(\w+)\), sizeof\(uint32_t\)\);", r"OUT_U32(\1);", 2, 2)], "emitDebugInfo symbol loop body", manifest)
+    leftover_check(b1, "dbg_emit_strings_body")
+    leftover_check(b2, "dbg_emit_symbols_body")
+    manifest.append({"unit": "CodeGen::emitDebugInfo structure", "text": sk, "dropped": ["string bytes (names are ids)"]})
+    return ("static void dbg_emit_strings_body(const DebugPair *pair) " + b1 + "\n"
+            "static void dbg_emit_symbols_body(const DebugPair *pair) " + b2 + "\n")
